@@ -61,6 +61,10 @@ func (its *SnapshotDatatype) SetMetaAndSnapshot(meta, snap []byte) errors.OrdaEr
 	if err := json.Unmarshal(snap, its.GetSnapshot()); err != nil {
 		return errors.DatatypeMarshal.New(its.L(), err.Error())
 	}
+	// the imported state is what a failed transaction has to come back to
+	if tx, ok := its.Datatype.(interface{ ResetTransaction() errors.OrdaError }); ok {
+		return tx.ResetTransaction()
+	}
 	return nil
 }
 
